@@ -19,14 +19,14 @@ func C02(c *Ctx) *kf.Report {
 	rep.Assumptions = []string{
 		"programs stay inside the typed core (ints within +-10^6, bools, strings; bounded loops): TLC integers are 32 bit",
 		"the Go unparser prints fully parenthesised source, one statement per line; output tokens are newline separated",
-		"seeded programs avoid constructs whose pinned behaviour is a known, modelled deviation (levels > 1, switch); those are covered by the enumerated family and classified by the deviation layer",
+		"seeded programs use break / continue levels in every second program and switch in every third (both were avoided while the interpreter ignored levels and had no fall-through; fixed by d3b94a0 and 3b4cdeb)",
 	}
 	progs := lang.EnumLoops(c.Thorough())
 	nEnum := len(progs)
 	rng := c.Rng()
 	nSeed := c.Pick(400, 5000)
 	for i := 0; i < nSeed; i++ {
-		p := lang.Random(rng, lang.GenCfg{MaxDepth: 3 + i%3, Levels: false, Switch: false, ContinueWhile: true})
+		p := lang.Random(rng, lang.GenCfg{MaxDepth: 3 + i%3, Levels: i%2 == 1, Switch: i%3 == 2, ContinueWhile: true})
 		p.Tags = append(p.Tags, fmt.Sprintf("n=%d", i))
 		progs = append(progs, p)
 	}
